@@ -341,10 +341,17 @@ func (sel *Selection) beginEdit(r NodeRequest, bubble bool) error {
 	if err := sel.Browser.Triggers.beginEdit(r); err != nil {
 		return err
 	}
+	var begun []NodeRequest
 	for {
 		if err := r.Selection.Node.BeginEdit(r); err != nil {
+			// the caller will not call endEdit, so every node that was already
+			// told the edit begins is told here that it ended
+			for _, b := range begun {
+				b.Selection.Node.EndEdit(b)
+			}
 			return err
 		}
+		begun = append(begun, r)
 		if r.Selection.parent == nil || !bubble {
 			break
 		}
@@ -356,15 +363,21 @@ func (sel *Selection) beginEdit(r NodeRequest, bubble bool) error {
 
 func (sel *Selection) endEdit(r NodeRequest, bubble bool) error {
 	r.Selection = sel
+	var firstErr error
 	for {
-		if err := r.Selection.Node.EndEdit(r); err != nil {
-			return err
+		// every node that was told the edit begins is told that it ended, even
+		// if one of them fails
+		if err := r.Selection.Node.EndEdit(r); err != nil && firstErr == nil {
+			firstErr = err
 		}
 		if r.Selection.parent == nil || !bubble {
 			break
 		}
 		r.Selection = r.Selection.parent
 		r.EditRoot = false
+	}
+	if firstErr != nil {
+		return firstErr
 	}
 	if err := sel.Browser.Triggers.endEdit(r); err != nil {
 		return err
@@ -381,7 +394,7 @@ func (sel *Selection) Delete() (err error) {
 	}
 	defer func() {
 		if endErr := sel.endEdit(NodeRequest{Source: sel, Delete: true, EditRoot: true}, true); endErr != nil {
-			err = fmt.Errorf("error during endEdit: %v, previous error: %w", endErr, err)
+			err = wrapEndEditErr(endErr, err)
 		}
 	}()
 
@@ -410,6 +423,14 @@ func (sel *Selection) Delete() (err error) {
 		}
 	}
 	return
+}
+
+// both the error of endEdit and the one that ended the edit stay reachable with errors.Is/As
+func wrapEndEditErr(endErr error, previous error) error {
+	if previous == nil {
+		return fmt.Errorf("error during endEdit: %w", endErr)
+	}
+	return fmt.Errorf("error during endEdit: %w, previous error: %w", endErr, previous)
 }
 
 func findIntParam(params map[string][]string, param string) (int, bool) {
